@@ -61,7 +61,7 @@ pub struct DrvState {
     /// script step index -> gate id of the handler invocation it caused (filled lazily)
     pub budget_hit: bool,
     pub fin_done: bool,
-    pub forced_done: [bool; 3],
+    pub forced_done: [bool; 4],
     pub consec_polls: u32,
     /// consecutive task polls that produced no event while no external action was enabled
     pub quiet_polls: u32,
@@ -95,7 +95,7 @@ impl SimDriver {
                 last_ack: Vec::new(),
                 budget_hit: false,
                 fin_done: false,
-                forced_done: [false; 3],
+                forced_done: [false; 4],
                 consec_polls: 0,
                 quiet_polls: 0,
                 hist_len_seen: 0,
@@ -122,6 +122,11 @@ impl SimDriver {
                 self.w.wire(c).set_wr_cap(Some(0));
                 st.stalled[c] = true;
             }
+            if c == 0
+                && let Some(m) = self.plan.faults.wr_err_after_bytes
+            {
+                self.w.wire(c).0.borrow_mut().wr_err_after = Some(m as usize);
+            }
         }
     }
 
@@ -135,6 +140,7 @@ impl SimDriver {
                 let ws = wire.0.borrow();
                 (ws.out.len(), ws.ep_closed || ws.ep_dropped)
             };
+            let fired = wire.0.borrow_mut().wr_err_fired.take();
             let mut st = self.st.borrow_mut();
             if len > st.out_seen[c] {
                 self.w.ev(Ev::EpWrite { conn: c, n: len - st.out_seen[c] });
@@ -153,6 +159,10 @@ impl SimDriver {
                     st.garbage_seen[c] = true;
                     self.w.ev(Ev::EpGarbage { conn: c, off, what });
                 }
+            }
+            if let Some(m) = fired {
+                self.w.fault(c, "wr_err", m as u64);
+                self.w.probe("wr-err-at-byte");
             }
             if closed && !st.closed_seen[c] {
                 st.closed_seen[c] = true;
@@ -348,11 +358,23 @@ impl SimDriver {
                         }
                     }
                 };
-                let n = wire.deliver(n.clamp(1, inflight));
+                let mut n = n.clamp(1, inflight);
+                // connection loss at a given byte of the peer's stream (C07X): nothing beyond it arrives
+                let cut = if c == 0 && !self.st.borrow().forced_done[3] { plan.faults.close_after_bytes } else { None };
+                if let Some((j, _)) = cut {
+                    let room = (j as usize).saturating_sub(wire.0.borrow().delivered_total);
+                    n = n.min(room.max(1));
+                }
+                let n = wire.deliver(n);
                 if n < inflight {
                     self.w.fault(c, "frag", n as u64);
                 }
                 self.w.ev(Ev::Deliver { conn: c, n });
+                if let Some((j, rst)) = cut
+                    && wire.0.borrow().delivered_total >= j as usize
+                {
+                    self.close_at_byte(rst);
+                }
             }
             Act::PeerConnect(c) => {
                 let mut st = self.st.borrow_mut();
@@ -498,9 +520,28 @@ impl SimDriver {
         self.w.ev(Ev::PeerSend { conn: c, pkt, len: bytes.len(), corrupt, start });
     }
 
+    fn close_at_byte(&self, rst: bool) {
+        let mut st = self.st.borrow_mut();
+        st.forced_done[3] = true;
+        st.peers.iter_mut().for_each(|p| p.closed = true);
+        drop(st);
+        let wire = self.w.wire(0);
+        let at = wire.0.borrow().delivered_total as u64;
+        wire.cut_and_close(if rst { RdState::Err } else { RdState::Fin });
+        self.w.ev(Ev::PeerClose { conn: 0, rst });
+        self.w.fault(0, if rst { "rst" } else { "fin" }, at);
+        self.w.probe("close-at-byte");
+    }
+
     fn forced_faults(&self) {
         if self.w.wires.borrow().is_empty() {
             // the connection does not exist yet: the fault lands as soon as it does
+            return;
+        }
+        if let Some((0, rst)) = self.plan.faults.close_after_bytes
+            && !self.st.borrow().forced_done[3]
+        {
+            self.close_at_byte(rst);
             return;
         }
         let f = &self.plan.faults;
